@@ -45,6 +45,19 @@ def contract(name, functions, props, **opts):
     return deco
 
 
+def sharded(name, functions, props, bits=3, **opts):
+    """register 2**bits contracts that partition the path tree by the first `bits` decisions"""
+    def deco(fn):
+        for i in range(2 ** bits):
+            pre = [(i >> b) & 1 for b in range(bits)]
+            o = dict(opts, prefix=pre)
+            if i:
+                o['numeric_share'] = False
+            CONTRACTS['%s#%d' % (name, i)] = Contract('%s#%d' % (name, i), fn, list(functions), list(props), o)
+        return fn
+    return deco
+
+
 class Reject(Exception):
     """concrete sample does not satisfy `requires`"""
 
@@ -452,9 +465,11 @@ def _seed_for(name, seed):
     return int(hashlib.sha256(('%s/%s' % (name, seed)).encode()).hexdigest()[:12], 16)
 
 
-def explore(ct, max_paths=600, ieee=False):
-    """yield (path, ctx, error) for every decision vector of the contract in sym mode"""
-    stack = [[]]
+def explore(ct, max_paths=600, ieee=False, prefix=()):
+    """yield (path, ctx, error) for every decision vector of the contract in sym mode.
+    prefix: forced leading decisions (sharding of the path tree over worker processes)"""
+    prefix = list(prefix)
+    stack = [list(prefix)]
     n = 0
     while stack:
         dec = stack.pop()
@@ -478,9 +493,11 @@ def explore(ct, max_paths=600, ieee=False):
         finally:
             S.set_path(None)
             symnp.BUNDLE_MODE[0] = False
-        for i in range(len(dec), len(path.trace)):
+        for i in range(max(len(dec), len(prefix)), len(path.trace)):
             for alt in range(1, path.trace[i][2]):
                 stack.append([t[1] for t in path.trace[:i]] + [alt])
+        if len(path.trace) < len(prefix) and any(prefix[len(path.trace):]):
+            continue        # a path shorter than the shard prefix belongs to the all-zero shard
         n += 1
         yield path, ctx, err
         if n >= max_paths:
@@ -615,7 +632,8 @@ def run_symbolic(ct, tier):
     samples = []
     wd = set()
     assumed = set()
-    for path, ctx, err in explore(ct, max_paths=ct.opts.get('max_paths', 600), ieee=ct.opts.get('ieee', False)):
+    for path, ctx, err in explore(ct, max_paths=ct.opts.get('max_paths', 600), ieee=ct.opts.get('ieee', False),
+                                  prefix=ct.opts.get('prefix', ())):
         if err == 'infeasible':
             continue
         if path is None:
@@ -791,6 +809,8 @@ def check_contract(ct, tier, seed, k_samples):
     tries = 0
     concolic_ok = 0
     samples = []
+    if ct.opts.get('numeric_share') is False:
+        k_samples = 0
     while accepted < k_samples and tries < k_samples * 40:
         tries += 1
         ctx, fails, exc = run_numeric(ct, rng=rng)
